@@ -24,6 +24,7 @@ Definition is_rep_err (e : irerr) : bool :=
 Section Dispatch.
   Variable PS : Type.                                     (* state of all protocol instances *)
   Variable pdecode : nat -> PS -> PS * outcome.           (* decoders[p].decode(data, frequency) on the current input *)
+  Variable saved : nat -> option code.                    (* a code stored on decoder p (for code in decoder) equal to the input *)
 
   Definition possible (cfg : list pconf) (freq : Z) (p : nat) : bool :=
     match nth_error cfg p with
@@ -57,11 +58,16 @@ Section Dispatch.
     | [] => (ps, st, RNone)
     | p :: r =>
         if possible cfg freq p then
+          match saved p with
+          | Some c =>                                   (* `for code in decoder: if code == data: break`: no decode call *)
+              (ps, {| last_code := Some c; last_decoder := Some p |}, RCode c)
+          | None =>
           attempt p ps st
             (fun ps' c => (ps', {| last_code := Some c; last_decoder := Some p |}, RCode c))
             (fun ps' => (ps', {| last_code := last_code st; last_decoder := Some p |}, RNone))
             (fun ps' => (ps', {| last_code := last_code st; last_decoder := Some p |}, RNone))
             (fun ps' => scan cfg freq ps' st r)
+          end
         else scan cfg freq ps st r
     end.
 
@@ -107,6 +113,7 @@ End Dispatch.
 Section Traced.
   Variable PS : Type.
   Variable pdecode : nat -> PS -> PS * outcome.
+  Variable saved : nat -> option code.
 
   Definition TPS : Type := (PS * list (nat * outcome))%type.
   Definition tdecode (p : nat) (s : TPS) : TPS * outcome :=
@@ -120,7 +127,8 @@ Section Traced.
   (* [ext] = the decoder calls made; how they explain the result *)
   Definition explains (cfg : list pconf) (freq : Z) (must_try : list nat) (ext : list (nat * outcome)) (r : dresult) : Prop :=
     match r with
-    | RCode c => exists ext0 p, ext = ext0 ++ [(p, OCode c)] /\ all_soft ext0 = true /\ possible cfg freq p = true
+    | RCode c => (exists ext0 p, ext = ext0 ++ [(p, OCode c)] /\ all_soft ext0 = true /\ possible cfg freq p = true)
+                 \/ (exists p, saved p = Some c /\ all_soft ext = true /\ possible cfg freq p = true)
     | RNone =>
         (all_soft ext = true /\ forall p, In p must_try -> possible cfg freq p = true -> In p (map fst ext))
         \/ (exists ext0 p e, ext = ext0 ++ [(p, OErr e)] /\ is_rep_err e = true /\ all_soft ext0 = true)
@@ -136,8 +144,10 @@ Section Traced.
         intros q [<-|Hq] Hpq; [left; reflexivity|right; apply F2; assumption].
       + right. exists ((p, o) :: ext0), q, e'. split; [rewrite F1; reflexivity|]. split; [exact F2|].
         cbn. rewrite Ee. exact F3.
-    - destruct H as [ext0 [q [F1 [F2 F3]]]]. exists ((p, o) :: ext0), q. split; [rewrite F1; reflexivity|].
-      split; [cbn; rewrite Ee; exact F2|exact F3].
+    - destruct H as [[ext0 [q [F1 [F2 F3]]]]|[q [F1 [F2 F3]]]].
+      + left. exists ((p, o) :: ext0), q. split; [rewrite F1; reflexivity|].
+        split; [cbn; rewrite Ee; exact F2|exact F3].
+      + right. exists q. split; [exact F1|]. split; [cbn; rewrite Ee; exact F2|exact F3].
   Qed.
 
   Lemma explains_weaken cfg freq must must' ext r :
@@ -150,15 +160,18 @@ Section Traced.
   Qed.
 
   Lemma scan_explains cfg freq : forall todo ps tr st s' st' r,
-    scan TPS tdecode cfg freq (ps, tr) st todo = (s', st', r) ->
+    scan TPS tdecode saved cfg freq (ps, tr) st todo = (s', st', r) ->
     exists ext, snd s' = tr ++ ext /\ explains cfg freq todo ext r.
   Proof.
     induction todo as [|p rest IH]; intros ps tr st s' st' r H; cbn [scan] in H.
     - injection H as <- <- <-. exists []. cbn. rewrite app_nil_r. split; [reflexivity|]. left. split; [reflexivity|]. intros p [].
     - destruct (possible cfg freq p) eqn:Ep.
-      + unfold attempt, tdecode in H. cbn [fst snd] in H. destruct (pdecode p ps) as [ps1 o] eqn:Ed.
+      + destruct (saved p) as [sc|] eqn:Es.
+        { injection H as <- <- <-. exists []. cbn [snd]. rewrite app_nil_r. split; [reflexivity|].
+          right. exists p. repeat split; auto. }
+        unfold attempt, tdecode in H. cbn [fst snd] in H. destruct (pdecode p ps) as [ps1 o] eqn:Ed.
         destruct o as [c|e|e].
-        * injection H as <- <- <-. exists [(p, OCode c)]. split; [reflexivity|]. exists [], p. repeat split; auto.
+        * injection H as <- <- <-. exists [(p, OCode c)]. split; [reflexivity|]. left. exists [], p. repeat split; auto.
         * destruct (is_decode_error e) eqn:Ee.
           -- destruct (IH _ _ _ _ _ _ H) as [ext [E1 E2]]. exists ((p, OErr e) :: ext).
              split; [rewrite E1, <- app_assoc; reflexivity|]. apply explains_prefix; [cbn; rewrite Ee; reflexivity|exact E2].
@@ -171,7 +184,7 @@ Section Traced.
 
   (* scan after one soft rejection by decoder p *)
   Lemma scan_after cfg freq p o ps1 st s' st' r : is_soft o = true ->
-    scan TPS tdecode cfg freq (ps1, [(p, o)]) st (seq 0 (length cfg)) = (s', st', r) ->
+    scan TPS tdecode saved cfg freq (ps1, [(p, o)]) st (seq 0 (length cfg)) = (s', st', r) ->
     explains cfg freq (seq 0 (length cfg)) (snd s') r.
   Proof.
     intros Hs H. destruct (scan_explains _ _ _ _ _ _ _ _ _ H) as [ext [E1 E2]]. rewrite E1. cbn [app].
@@ -184,13 +197,13 @@ Section Traced.
      nothing either found the timings equal to the held key, or a decoder signalled a repeat marker, or every decoder
      it may use was asked and rejected the input. *)
   Theorem dispatch_explained cfg freq hm ps st s' st' r :
-    dispatch TPS tdecode cfg freq hm (ps, []) st = (s', st', r) ->
+    dispatch TPS tdecode saved cfg freq hm (ps, []) st = (s', st', r) ->
     (hm = true /\ r = RNone /\ snd s' = [] /\ exists lc, last_code st = Some lc /\ possible cfg freq (c_pid lc) = true)
     \/ explains cfg freq (seq 0 (length cfg)) (snd s') r.
   Proof.
     unfold dispatch. intros H.
     (* the three shapes every branch ends in *)
-    assert (forall s1 st1 r1, scan TPS tdecode cfg freq (ps, []) st (seq 0 (length cfg)) = (s1, st1, r1) ->
+    assert (forall s1 st1 r1, scan TPS tdecode saved cfg freq (ps, []) st (seq 0 (length cfg)) = (s1, st1, r1) ->
             explains cfg freq (seq 0 (length cfg)) (snd s1) r1) as Hscan0.
     { intros s1 st1 r1 Hs. destruct (scan_explains _ _ _ _ _ _ _ _ _ Hs) as [ext [E1 E2]]. rewrite E1. exact E2. }
     assert (forall p on_li, possible cfg freq p = true ->
@@ -200,11 +213,11 @@ Section Traced.
               attempt TPS tdecode p (ps, []) st
                 (fun ps' c => (ps', {| last_code := Some c; last_decoder := last_decoder st |}, RCode c)) on_li
                 (fun ps' => (ps', st, RNone))
-                (fun ps' => scan TPS tdecode cfg freq ps' st (seq 0 (length cfg))) = (s1, st1, r1) ->
+                (fun ps' => scan TPS tdecode saved cfg freq ps' st (seq 0 (length cfg))) = (s1, st1, r1) ->
               explains cfg freq (seq 0 (length cfg)) (snd s1) r1) as Hatt.
     { intros p on_li Hp Hli s1 st1 r1 Ha. unfold attempt, tdecode in Ha. cbn [fst snd app] in Ha.
       destruct (pdecode p ps) as [ps1 o] eqn:Ed. destruct o as [c|e|e].
-      - injection Ha as <- <- <-. exists [], p. repeat split; auto.
+      - injection Ha as <- <- <-. left. exists [], p. repeat split; auto.
       - destruct (is_decode_error e) eqn:Ee.
         + eapply scan_after; [|exact Ha]. cbn. rewrite Ee. reflexivity.
         + destruct e; cbn in Ee; try discriminate.
@@ -231,10 +244,12 @@ Section Traced.
 
   (* C10: a returned code comes from an enabled, frequency-compatible decoder (corollary) *)
   Corollary dispatch_possible cfg freq hm ps st s' st' c :
-    dispatch TPS tdecode cfg freq hm (ps, []) st = (s', st', RCode c) ->
-    exists p, possible cfg freq p = true /\ In (p, OCode c) (snd s').
+    dispatch TPS tdecode saved cfg freq hm (ps, []) st = (s', st', RCode c) ->
+    exists p, possible cfg freq p = true /\ (In (p, OCode c) (snd s') \/ saved p = Some c).
   Proof.
     intros H. destruct (dispatch_explained _ _ _ _ _ _ _ _ H) as [[_ [E _]]|E]; [discriminate|].
-    destruct E as [ext0 [p [E1 [_ E3]]]]. exists p. split; [exact E3|]. rewrite E1. apply in_or_app. right. left. reflexivity.
+    destruct E as [[ext0 [p [E1 [_ E3]]]]|[p [E1 [_ E3]]]].
+    - exists p. split; [exact E3|]. left. rewrite E1. apply in_or_app. right. left. reflexivity.
+    - exists p. split; [exact E3|]. right. exact E1.
   Qed.
 End Traced.
